@@ -440,38 +440,6 @@ def run_tagseq(c: Dict[str, Any]) -> str:
     return " ; ".join(outs) if outs else "-"
 
 
-def in_child(thunk) -> str:
-    """Run `thunk` in a forked child and return its string: a stream is a self-contained case, so whatever the library keeps
-    between calls at module level comes from THIS stream only (as in a replay, which starts a process of its own) and not
-    from the cases evaluated before it.  Falls back to the current process where `fork` is not available."""
-    import os
-    try:
-        r, w = os.pipe()
-        pid = os.fork()
-    except (AttributeError, OSError):
-        return thunk()
-    if pid == 0:
-        code = 1
-        try:
-            os.close(r)
-            try:
-                out = thunk()
-            except BaseException as ex:      # noqa: the child must never return into the harness
-                out = "HARNESS-EXC in child " + type(ex).__name__ + ": " + str(ex)
-            with os.fdopen(w, "wb") as fh:
-                fh.write(out.encode("utf-8", "surrogatepass"))
-            code = 0
-        finally:
-            os._exit(code)
-    os.close(w)
-    with os.fdopen(r, "rb") as fh:
-        data = fh.read()
-    _, status = os.waitpid(pid, 0)
-    if status != 0:
-        return thunk()
-    return data.decode("utf-8", "surrogatepass")
-
-
 def tagseq_line(c: Dict[str, Any]) -> Optional[str]:
     toks = []
     for st in c["steps"]:
@@ -943,7 +911,7 @@ class C17(Prop):
                 import celpy.c7nlib as L
                 L.C7N = None
         if k == "tagseq":
-            return in_child(lambda: run_tagseq(c))
+            return run_tagseq(c)
         via = c.get("via", "py")
         direct, src_fn, src_m, act = call_spec(c)
         try:
